@@ -54,12 +54,23 @@ def explore(chk):
                     if not any(t in pc for pc in per_cap):
                         chk.property_failure(dict(case, row=r["text"]), "the text of a transmitted row is split across captions")
                         break
-            for k, c in enumerate(caps):
-                if not c[0] < c[1]:
-                    chk.property_failure(dict(case, caption=k), "a caption does not have start < end")
+            # captions with the same start are the parts of one cue (rows that are not adjacent): they share their end too;
+            # from one cue to the next: ordered by start, and the end of one is the start of the next
+            groups = []
+            for c in caps:
+                if groups and abs(groups[-1][0][0] - c[0]) <= TOL:
+                    groups[-1].append(c)
+                else:
+                    groups.append([c])
+            for k, g_ in enumerate(groups):
+                if any(not c[0] < c[1] for c in g_):
+                    chk.property_failure(dict(case, cue=k), "a caption does not have start < end")
                     break
-                if k + 1 < len(caps) and (caps[k + 1][0] < c[0] or abs(c[1] - caps[k + 1][0]) > TOL):
-                    chk.property_failure(dict(case, caption=k), "captions are not contiguous (end of one != start of the next) or not ordered by start")
+                if any(abs(c[1] - g_[0][1]) > TOL for c in g_):
+                    chk.property_failure(dict(case, cue=k), "the captions made from one cue (same start) do not share their end")
+                    break
+                if k + 1 < len(groups) and (groups[k + 1][0][0] < g_[0][0] or abs(g_[0][1] - groups[k + 1][0][0]) > TOL):
+                    chk.property_failure(dict(case, cue=k), "captions are not contiguous (end of one != start of the next) or not ordered by start")
                     break
         if out is not None:
             d = sc.compare_impl_model(I, sc.dec_model(out[o]))
